@@ -202,6 +202,9 @@ type batchExec struct {
 	qp func(x *batchExec) string
 	qpFail string
 	unattributed int // fallback calls whose item could not be identified
+	// exec calls whose argument is none of the items prep produced (an undocumented prep form that
+	// the implementation itemises by a rule of its own, e.g. a []Result wrapped element-wise)
+	unattributedExec int
 	node    flyt.Node
 	builder *flyt.BatchNodeBuilder
 	store   *flyt.SharedStore
@@ -375,6 +378,9 @@ func (x *batchExec) prepCb(ctx context.Context, s *flyt.SharedStore) (any, error
 func (x *batchExec) execCb(ctx context.Context, r flyt.Result) (any, error, error) {
 	idx := x.decode(r)
 	x.mu.Lock()
+	if idx < 0 {
+		x.unattributedExec++
+	}
 	a := 0
 	if idx >= 0 && idx < len(x.attempts) {
 		a = x.attempts[idx]
@@ -405,7 +411,7 @@ func (x *batchExec) execCb(ctx context.Context, r flyt.Result) (any, error, erro
 		case x.wake <- struct{}{}:
 		default:
 		}
-		<-p.gate
+		gateWait(p.gate)
 	} else if idx >= 0 {
 		if d := x.sc.item(idx).DurMs; d > 0 {
 			time.Sleep(time.Duration(d) * time.Millisecond)
@@ -546,7 +552,7 @@ func (x *batchExec) build() flyt.Node {
 	if bit(3) && sc.Mode != 0 {
 		opts = append(opts, flyt.WithBatchErrorHandling(sc.Mode == 1))
 	}
-	b := flyt.NewBatchNode(opts...)
+	b := newBatchNode(opts)
 	needCN := sc.HasFb || (sc.PrepForm != PFResults)
 	if needCN {
 		var cnOpts []any
@@ -715,6 +721,7 @@ func (x *batchExec) run() batchRun {
 		br.Finished = x.now()
 	}()
 	step := 0
+	qpRetried := false
 	for {
 		synctest.Wait()
 		select {
@@ -741,7 +748,16 @@ func (x *batchExec) run() batchRun {
 		np := len(x.parked)
 		x.mu.Unlock()
 		if x.qp != nil && x.qpFail == "" {
-			x.qpFail = x.qp(x)
+			if f := x.qp(x); f != "" && !qpRetried {
+				// the implementation may be parked on a timer of its own (lazily started workers,
+				// admission by polling): let a second of virtual time pass - no gate is opened
+				// meanwhile - and look again
+				qpRetried = true
+				time.Sleep(time.Second)
+				continue
+			} else if f != "" {
+				x.qpFail = f
+			}
 		}
 		if np == 0 {
 			// nothing parked: the run is waiting on a (virtual) timer or for a barrier.
@@ -784,12 +800,16 @@ func (x *batchExec) run() batchRun {
 		x.releases = append(x.releases, fmt.Sprintf("i%d.a%d", p.item, p.attempt))
 		x.mu.Unlock()
 		step++
+		qpRetried = false
 		close(p.gate)
 	}
 }
 
 func (x *batchExec) rejected(br batchRun) bool {
 	if x.cnMissing {
+		return true
+	}
+	if x.unattributedExec > 0 && x.sc.PrepForm != PFResults {
 		return true
 	}
 	if x.swapped && br.Panic == "" && br.CtxErr == nil && x.sc.n() > 0 && x.sc.PrepErr == 0 {
